@@ -48,6 +48,93 @@ def call_fmtstr(it, *args, **kw):
     return it.call1("formatstring", "fmtstr", *args, **kw)
 
 
+def rule_concrete(src, rep, it, fg, bg, sty, counts):
+    """T7 / T8 on concrete values.  T7: formatting applied to a value that has ALREADY been looked at (terminal string, length,
+    text and width memoised) - what the result displays, not only its run table, must show the new formatting.  T8: formatting
+    applied to a str that itself contains escape sequences sets the named attributes on EVERY character (overriding what the
+    text said), exactly as applying it to the parsed FmtStr does."""
+    from .. import sgr
+    from ..models import cells
+    from .c13sem import observe
+    f = src.func("formatstring", "fmtstr")
+
+    def st(a):
+        return sgr.expected_state(a.get("fg"), a.get("bg"), {k: v for k, v in a.items() if k not in ("fg", "bg")})
+
+    def shown(v):
+        """[(char, SGR state)] of what str(v) displays, through the reference SGR machine"""
+        import re as _re
+        r = it.callm(v, "__str__")
+        if r[0] != "ok" or not isinstance(r[1], str):
+            raise AnalysisError("str() of a result is not evaluable: %s" % (r,))
+        out, state, pos = [], sgr.DEFAULT, 0
+        for m in _re.finditer("\x1b\\[([0-9;]*)m", r[1]):
+            out.extend((ch, state) for ch in r[1][pos:m.start()])
+            state = sgr.apply_params(state, [int(x) if x else 0 for x in m.group(1).split(";")] if m.group(1) else [])
+            pos = m.end()
+        out.extend((ch, state) for ch in r[1][pos:])
+        return out
+
+    n = 0
+    bases = [[("ab", {})], [("ab", {"fg": 31})], [("a", {"fg": 34, "bold": True}), ("b", {"bg": 41})]]
+    ops = [
+        ("fmtstr(x, 'blue')", lambda x: it.call1("formatstring", "fmtstr", x, "blue"), {"fg": 34}, ()),
+        ("fmtstr(x, bg='green', underline=True)", lambda x: it.call1("formatstring", "fmtstr", x, bg="green", underline=True), {"bg": 42, "underline": True}, ()),
+        ("x.copy_with_new_atts(fg=35)", lambda x: it.callm(x, "copy_with_new_atts", fg=35), {"fg": 35}, ()),
+        ("x.new_with_atts_removed('fg')", lambda x: it.callm(x, "new_with_atts_removed", "fg"), {}, ("fg",)),
+        ("bold(x)", lambda x: ("ok", it.folder.v_call(it.folder.module("fmtfuncs")["bold"], [x], {}, None, {})), {"bold": True}, ()),
+    ]
+    for runs in bases:
+        for label, op, setv, rem in ops:
+            for look_first in (False, True):
+                x = mk(it, *runs)
+                if look_first:
+                    observe(it, x)
+                try:
+                    r = op(x)
+                except FoldedRaise as e:
+                    r = ("raise", e.name)
+                except Unknown as e:
+                    raise AnalysisError("%s outside the evaluated subset: %s" % (label, e))
+                if r[0] == "opaque":
+                    raise AnalysisError("%s outside the evaluated subset: %s" % (label, r[1]))
+                n += 1
+                rep.case(True)
+                want = []
+                for t, a in runs:
+                    a2 = {k: v for k, v in a.items() if k not in rem}
+                    a2.update(setv)
+                    want.extend((ch, st(a2)) for ch in t)
+                ok = r[0] == "ok" and isinstance(r[1], Obj)
+                got = None
+                if ok:
+                    got = shown(r[1])
+                    ok = got == want and [(c, st(dict(e))) for c, e in cells(runs_of(r[1]))] == want
+                rep.ob("T7-formatting-shows-on-a-value-already-looked-at", f.where(), f.scope,
+                       "%s with x = %s%s" % (label, runs, ", after str(x) / len(x) / x.s / x.width" if look_first else ""), ok,
+                       "the result displays %s, expected %s (run table of the result: %s)"
+                       % (got, want, runs_of(r[1]) if r[0] == "ok" and isinstance(r[1], Obj) else r), witness={"runs": str(runs), "op": label})
+    # T8: text that already contains escape sequences
+    texts = ["\x1b[31mab\x1b[39mc", "a\x1b[31mb\x1b[39mc", "\x1b[1mx\x1b[0my", "p\x1b[44mq\x1b[49m", "\x1b[31;1mz\x1b[0m"]
+    for text in texts:
+        for args, kw, setv in ((("blue",), {}, {"fg": 34}), ((), {"bg": "green"}, {"bg": 42}), (("bold",), {}, {"bold": True})):
+            r1 = it.call1("formatstring", "fmtstr", text, *args, **kw)
+            p = it.call1("formatstring", "fmtstr", text)
+            if r1[0] == "opaque" or p[0] != "ok":
+                raise AnalysisError("fmtstr(%r, ...) outside the evaluated subset: %s %s" % (text, r1, p))
+            r2 = it.call1("formatstring", "fmtstr", p[1], *args, **kw)
+            n += 1
+            rep.case(True)
+            ok = r1[0] == "ok" and r2[0] == "ok"
+            if ok:
+                c1, c2 = cells(runs_of(r1[1])), cells(runs_of(r2[1]))
+                ok = c1 == c2 and all(set((k, v) for k, v in setv.items()) <= set(e) for _, e in c1)
+            rep.ob("T8-formatting-a-str-that-contains-escape-sequences", f.where(), f.scope, "fmtstr(%r, *%r, **%r)" % (text, args, kw), ok,
+                   "gives %s; applying the same formatting to fmtstr(text) gives %s; every character must carry %s"
+                   % (runs_of(r1[1]) if r1[0] == "ok" else r1, runs_of(r2[1]) if r2[0] == "ok" else r2, setv), witness={"text": text})
+    counts["concrete_cases"] = n
+
+
 def check(src, rep):
     rep.explanation = EXPLANATION
     rep.not_decided = NOT_DECIDED
@@ -70,6 +157,7 @@ def check(src, rep):
     rep.guard(rule_t6, src, rep, it, counts)
     rep.guard(rule_t2, src, rep, it, counts)
     rep.guard(rule_structure, src, rep, counts)
+    rep.guard(rule_concrete, src, rep, it, fg, bg, sty, counts)
     rep.extracted["counts"] = counts
     rep.floor("fmtfuncs helpers", counts.get("fmtfuncs", 0), 20)
     rep.floor("spellings evaluated", counts.get("spellings", 0), 90)
